@@ -257,6 +257,7 @@ Definition run_C10_tree (a : list tree) : tree :=
      5 snapshot version   6 snapshot expires   7 timestamp version   8 timestamp expires
      9 delegate_role [name, keys, [kind, patterns], threshold, expires, version]   10 sign_targets_editor keys
      11 change_delegated_targets role   12 from_repo   13 sign keys
+     14 role holder edits and signs + update_delegated_targets [name, added entries, version, expires, holder keys]
    -> [[accepted? per op], [sign state per sign op: [1, edit, dkeys, children, keys] | [0]]]
    (edit and children in the format of op 1) *)
 Definition edop_of_tree (t : tree) : edop :=
@@ -276,6 +277,8 @@ Definition edop_of_tree (t : tree) : edop :=
   else if c =? 10 then OpSignEditor (t_Ns a)
   else if c =? 11 then OpChange (t_bytes a)
   else if c =? 12 then OpFromRepo
+  else if c =? 14 then OpUpdate (t_bytes (t_nth a 0)) (map entry_of_tree (t_list (t_nth a 1))) (t_N (t_nth a 2))
+                                (Z_of_tree (t_nth a 3)) (t_Ns (t_nth a 4))
   else OpSign (t_Ns a).
 Definition tree_of_entries (en : list (tname * tinfo)) : tree :=
   T (map (fun ni => T [of_bytes (tn_raw (fst ni)); L (ti_len (snd ni)); L (ti_digest (snd ni))]) en).
